@@ -47,16 +47,17 @@ type Node struct {
 
 // TU is one parsed translation unit.
 type TU struct {
-	Path   string // absolute path of the .c file
-	Rel    string // path relative to the repository (bpf/x.c)
-	Repo   string
-	Root   *Node
-	ByID   map[string]*Node
-	Funcs  map[string]*Node // FunctionDecl with a body, by name
-	Vars   map[string]*Node // file-scope VarDecl by name
-	Recs   map[string]*Node // complete named RecordDecl by "struct X"/"union X"
-	Layout *Layout
-	Typedefs map[string]string
+	Path      string // absolute path of the .c file
+	Rel       string // path relative to the repository (bpf/x.c)
+	Repo      string
+	Root      *Node
+	ByID      map[string]*Node
+	Funcs     map[string]*Node // FunctionDecl with a body, by name
+	Vars      map[string]*Node // file-scope VarDecl by name
+	Recs      map[string]*Node // complete named RecordDecl by "struct X"/"union X"
+	Layout    *Layout
+	Typedefs  map[string]string
+	RenameLog []string // baseline names restored (rename.go)
 }
 
 // Desugared returns the canonical type string.
@@ -134,6 +135,7 @@ func Parse(repo, rel string) (*TU, error) {
 	if err := tu.build(raw); err != nil {
 		return nil, err
 	}
+	tu.undoRenames()
 	if err := tu.probe(); err != nil {
 		return nil, err
 	}
